@@ -75,6 +75,10 @@ pub struct ConfigBuilder {
     #[cfg(litep2p_verif)]
     verif_transport: Option<crate::verif::TransportFactory>,
 
+    /// Second scripted transport, registered as WebSocket (verification seam).
+    #[cfg(all(litep2p_verif, feature = "websocket"))]
+    verif_transport_ws: Option<crate::verif::TransportFactory>,
+
     /// QUIC transport config.
     #[cfg(feature = "quic")]
     quic: Option<QuicConfig>,
@@ -146,6 +150,8 @@ impl ConfigBuilder {
             tcp: None,
             #[cfg(litep2p_verif)]
             verif_transport: None,
+            #[cfg(all(litep2p_verif, feature = "websocket"))]
+            verif_transport_ws: None,
             #[cfg(feature = "quic")]
             quic: None,
             #[cfg(feature = "webrtc")]
@@ -174,6 +180,13 @@ impl ConfigBuilder {
     #[cfg(litep2p_verif)]
     pub fn with_verif_transport(mut self, factory: crate::verif::TransportFactory) -> Self {
         self.verif_transport = Some(factory);
+        self
+    }
+
+    /// Install a second scripted transport, registered in place of WebSocket (verification seam).
+    #[cfg(all(litep2p_verif, feature = "websocket"))]
+    pub fn with_verif_transport_ws(mut self, factory: crate::verif::TransportFactory) -> Self {
+        self.verif_transport_ws = Some(factory);
         self
     }
 
@@ -315,6 +328,8 @@ impl ConfigBuilder {
             tcp: self.tcp.take(),
             #[cfg(litep2p_verif)]
             verif_transport: self.verif_transport.take(),
+            #[cfg(all(litep2p_verif, feature = "websocket"))]
+            verif_transport_ws: self.verif_transport_ws.take(),
             mdns: self.mdns.take(),
             #[cfg(feature = "quic")]
             quic: self.quic.take(),
@@ -347,6 +362,10 @@ pub struct Litep2pConfig {
     /// Scripted transport factory (verification seam).
     #[cfg(litep2p_verif)]
     pub(crate) verif_transport: Option<crate::verif::TransportFactory>,
+
+    /// Second scripted transport, registered as WebSocket (verification seam).
+    #[cfg(all(litep2p_verif, feature = "websocket"))]
+    pub(crate) verif_transport_ws: Option<crate::verif::TransportFactory>,
 
     /// QUIC transport config.
     #[cfg(feature = "quic")]
